@@ -28,7 +28,8 @@ CLAIMED = {
              "code on random scripts and skewed traces; theorems: each container returns only resident unpinned records "
              "(so the generic theorems apply to it), FIFO and LRU refine their stamped specifications, SIEVE follows the "
              "published hand rule for every queue and hand position (first unvisited record from the hand, wrapping; bits "
-             "of passed records cleared; all visited: once around); S3-FIFO and w-TinyLFU by kernel-evaluated scenarios.",
+             "of passed records cleared; all visited: once around); S3-FIFO queue rules and pop totality (Mem/S3Thms.v); w-TinyLFU pop totality, the admission duel between window and "
+             "probation heads by estimated frequency, and window overflow order (Mem/LfuThms.v); the count-min sketch by kernel-evaluated scenarios.",
         ref="4/C14", tech="Coq proof (container invariants, spec refinement) + extracted-model correspondence",
         note="float->integer rounding of derived capacities and the count-min bucket hashing are inputs computed "
              "by the harness with the code's own expressions."),
